@@ -274,11 +274,11 @@ def zeros(B, G):
 
 def jobs(tier):
     J = []
-    shapes = [(1, 1), (2, 3), (3, 1), (2, 2)] + ([(3, 3), (1, 3), (3, 2)] if tier != "quick" else [])
+    shapes = [(1, 1), (2, 3), (3, 1), (2, 2)] + ([(3, 3), (1, 3), (3, 2), (4, 2), (2, 4), (4, 4)] if tier != "quick" else [])
     for k, l in shapes:
         J.append(dict(name="basic-%dx%d" % (k, l), module="checks.c15", scenario="basic", kwargs=dict(k=k, l=l)))
     J.append(dict(name="zeros", module="checks.c15", scenario="zeros", kwargs={}))
-    ks = [(2, 1, 1, 3), (2, 2, 2, 2), (1, 2, 3, 1)] + ([(2, 3, 3, 2), (3, 3, 2, 2)] if tier != "quick" else [])
+    ks = [(2, 1, 1, 3), (2, 2, 2, 2), (1, 2, 3, 1)] + ([(2, 3, 3, 2), (3, 3, 2, 2), (4, 1, 2, 3), (3, 2, 4, 1)] if tier != "quick" else [])
     for t in ks:
         J.append(dict(name="kron-%d%d%d%d" % t, module="checks.c15", scenario="kron_einsum", kwargs=dict(k=t[0], l=t[1], p=t[2], q=t[3])))
     return J
